@@ -427,3 +427,45 @@ def match_term(pat, term, binds, vars_, memo=None):
                 break
     memo[key] = ok
     return ok
+
+
+def sel_conditions(ts):
+    """conditions of every select occurring in the terms (in first-occurrence order)"""
+    out = []
+    seen = set()
+    for t in ts:
+        for x in subterms(t):
+            if x[0] == 'sel' and x[1] not in seen:
+                seen.add(x[1])
+                out.append(x[1])
+    return out
+
+
+def split_cases(ts, max_conds=10):
+    """case analysis over the select conditions of `ts`: yields (assumptions, terms specialised to the case).
+    In a case where `e == constant` is assumed, `e` is replaced by the constant (that is what the branch knows).
+    Yields nothing when there are more than `max_conds` conditions (the caller fails closed)."""
+    import itertools
+    conds = sel_conditions(ts)
+    if len(conds) > max_conds:
+        return
+    for bits in itertools.product((True, False), repeat=len(conds)):
+        asm = dict(zip(conds, bits))
+        sub = {}
+        for c, b in asm.items():
+            eq = (c[0] == 'fcmp' and ((c[1] == 'eq' and b) or (c[1] == 'ne' and not b)))
+            if eq:
+                l, r = c[2], c[3]
+                if r[0] == 'fc' and l[0] != 'fc':
+                    sub[l] = r
+                elif l[0] == 'fc' and r[0] != 'fc':
+                    sub[r] = l
+        if sub:
+            # keep the assumed conditions themselves decidable after the replacement
+            asm2 = {}
+            for c, b in asm.items():
+                asm2[c] = b
+                asm2[subst_term(c, sub)] = b
+            yield asm2, [subst_term(t, sub) for t in ts]
+        else:
+            yield asm, list(ts)
